@@ -124,7 +124,10 @@ CACHES = [
          container='ctx._rs_cache', why='Riemann-Siegel coefficients, tagged by (J, eps)'),
     dict(kind='special', rule='D-IV', file='mpmath/functions/bessel.py', func='bessel_zero',
          container='_interval_cache',
-         why='bracketing intervals only; the root is re-solved at the current precision on every call'),
+         why='bracketing intervals only; the root is re-solved at the current precision on every call.  Since '
+             'fix 9c.. the dict is the context\'s own _misc_const_cache (it was a default argument shared by all '
+             'contexts, and the exemption this row then gave from D-R3 was wrong: fp.besseljzero changed in the '
+             '12th digit after mp had filled the cache)'),
     dict(kind='state', file='mpmath/functions/zeta.py', func='_load_zeta_zeros',
          container='_zeta_zeros', why='table of approximate starting points, replaced wholesale'),
     dict(kind='state', file='mpmath/calculus/extrapolation.py', func='levin_class.run',
